@@ -52,6 +52,9 @@ pub enum Raise {
     FrameError,
     /// nothing is sent on the stream: its poll meets the transport's connection error (needs transport_close)
     Transport,
+    /// nothing is sent on the stream: its read fails with ConnectionErrorIncoming::InternalError (an error inside the
+    /// transport glue; h3/src/quic.rs: "h3 will close the connection with H3_INTERNAL_ERROR")
+    TransportInternal,
 }
 
 #[derive(Debug, Clone, PartialEq, Eq, Hash)]
@@ -73,6 +76,7 @@ fn raise_code(r: Raise) -> u64 {
         Raise::Qpack => code::QPACK_DECOMPRESSION_FAILED,
         Raise::FrameError => code::FRAME_ERROR,
         Raise::Transport => 0,
+        Raise::TransportInternal => code::INTERNAL_ERROR,
     }
 }
 
@@ -119,7 +123,7 @@ fn bad_bytes(r: Raise, server: bool) -> (Vec<u8>, bool) {
         (Raise::FrameUnexpected, true) => (rf::varint_frame(rf::T_CANCEL_PUSH, 1), false),
         (Raise::Qpack, true) => (rf::frame(0x09, &[]), false), // H2 reserved => also H3_FRAME_UNEXPECTED on this path
         (Raise::FrameError, true) => (vec![0x00, 0x09, 0x01], true),
-        (Raise::Transport, _) => (vec![], false),
+        (Raise::Transport, _) | (Raise::TransportInternal, _) => (vec![], false),
     }
 }
 
@@ -254,6 +258,13 @@ fn run_scn_inner(s: &Scn, t: &mut Tape, ctx: &mut Ctx) -> Verdict {
     if let Some(c) = s.transport_close {
         net.raw_close(raw, c);
     }
+    for (i, r) in s.streams.iter().enumerate() {
+        if *r == Raise::TransportInternal {
+            if let Some(p) = net.lock().pipes.get_mut(&(4 * i as u64, raw)) {
+                p.inject_internal = Some("injected transport glue error".into());
+            }
+        }
+    }
     ex.run(&net, &mut NoActor, &mut Tape::new(&empty), Style::Eager, 100_000);
     // wake-ups caused by the deliveries above are real: the driver's flag may legitimately be set already
     // ---------------------------------------------------------------- race
@@ -341,6 +352,7 @@ fn run_scn_inner(s: &Scn, t: &mut Tape, ctx: &mut Ctx) -> Verdict {
             match s.streams[i - 1] {
                 // a handle whose bad input is complete raises its own protocol error (delivered data stays readable after a close)
                 Raise::Transport => ConnInfo::RemoteApp { code: s.transport_close.unwrap_or(0) },
+                Raise::TransportInternal => ConnInfo::RemoteInternal,
                 r => ConnInfo::Local { code: if s.server { server_code(r) } else { raise_code(r) } },
             }
         } else {
@@ -396,6 +408,13 @@ fn run_scn_inner(s: &Scn, t: &mut Tape, ctx: &mut Ctx) -> Verdict {
             if closes.len() != 1 || closes[0].code != *code {
                 return fail(format!("h3 detected {e:?}: the transport must see exactly one close with that code, saw {closes:?}"));
             }
+        }
+        ConnInfo::RemoteInternal => {
+            // documented on the trait: an InternalError of the transport glue makes h3 close with H3_INTERNAL_ERROR
+            if closes.len() != 1 || closes[0].code != code::INTERNAL_ERROR {
+                return fail(format!("the transport glue reported an InternalError: h3 closes with H3_INTERNAL_ERROR (h3/src/quic.rs), saw {closes:?}"));
+            }
+            ctx.class("transport_internal_error");
         }
         _ => {
             if !closes.is_empty() {
@@ -501,7 +520,7 @@ fn variants_opt(kmax: usize, all_droppers: bool) -> Vec<Scn> {
                 // distinct errors per handle
                 let combos: Vec<Vec<Raise>> = if k == 1 { raises.iter().map(|r| vec![*r]).collect() } else if k == 2 { vec![vec![raises[0], raises[1]], vec![raises[2], raises[0]], vec![raises[1], raises[2]]] } else { vec![raises.to_vec()] };
                 for streams in combos {
-                    for (tc, own, dropper) in [(None, false, false), (None, true, false), (Some(0x1234u64), false, false), (None, false, true)] {
+                    for (tc, own, dropper, internal) in [(None, false, false, false), (None, true, false, false), (Some(0x1234u64), false, false, false), (None, false, true, false), (None, false, false, true)] {
                         if dropper && server {
                             continue;
                         }
@@ -512,6 +531,9 @@ fn variants_opt(kmax: usize, all_droppers: bool) -> Vec<Scn> {
                         if tc.is_some() {
                             // the first handle has no input of its own: it meets the transport's error
                             st[0] = Raise::Transport;
+                        }
+                        if internal {
+                            st[0] = Raise::TransportInternal;
                         }
                         v.push(Scn { server, driver_polled_before: polled, streams: st, transport_close: tc, driver_own_error: own, dropper });
                     }
@@ -598,7 +620,7 @@ fn exhaustive(ctx: &mut Ctx, shard: usize, nshards: usize) -> Verdict {
 }
 
 fn parse_scn(v: &Value) -> Scn {
-    let streams = v["streams"].as_array().map(|a| a.iter().map(|x| match x.as_str() { Some("Qpack") => Raise::Qpack, Some("FrameError") => Raise::FrameError, _ => Raise::FrameUnexpected }).collect()).unwrap_or_default();
+    let streams = v["streams"].as_array().map(|a| a.iter().map(|x| match x.as_str() { Some("Qpack") => Raise::Qpack, Some("FrameError") => Raise::FrameError, Some("Transport") => Raise::Transport, Some("TransportInternal") => Raise::TransportInternal, _ => Raise::FrameUnexpected }).collect()).unwrap_or_default();
     Scn { server: v["role"].as_str() == Some("server"), driver_polled_before: v["driver_polled_before"].as_bool().unwrap_or(false), streams, transport_close: v["transport_close"].as_u64(), driver_own_error: v["driver_own_error"].as_bool().unwrap_or(false), dropper: v["dropper"].as_bool().unwrap_or(false) }
 }
 
